@@ -14,17 +14,19 @@
 (*           of any two N-bit operands has at least reg + 1 trailing zero *)
 (*           bits (by field lengths, all N in 3..32, all regime pairs).   *)
 EXTENDS AlgoPx, PositOps, TLC
-CONSTANTS NMin, NMax, TailNMax
+CONSTANTS NMin, NMax, TailNMax, LatN
 VARIABLES mode, N, k, j
 vars == <<mode, N, k, j>>
 
 Init == \/ /\ mode = "tail" /\ N \in 3 .. TailNMax /\ k \in -(N - 1) .. (N - 1) /\ j = -1
         \/ /\ mode = "pairs" /\ N \in NMin .. NMax /\ k \in 1 .. 2 ^ (N - 1) - 1 /\ j = -1
         \/ /\ mode = "shift" /\ N \in 3 .. 32 /\ k \in -(N - 2) .. (N - 2) /\ j = -1
+        \/ /\ mode = "lat" /\ N \in LatN /\ k \in 0 .. 4 * (N - 1) - 1 /\ j = -1
 Next == /\ j = -1
         /\ \/ mode = "tail" /\ j' \in 0 .. 255
            \/ mode = "pairs" /\ j' \in 1 .. 2 ^ N - 1
            \/ mode = "shift" /\ j' \in 0 .. 2 * (N - 2)
+           \/ mode = "lat" /\ j' \in 0 .. 4 * (N - 1) - 1
         /\ UNCHANGED <<mode, N, k>>
 Spec == Init /\ [][Next]_vars
 
@@ -47,6 +49,8 @@ TailB == LET ex == j % 4
 PairsB == LET a == FromInt(k)  b == FromInt(j)
           IN /\ AlgoMulE2(N, a, b) = PMul(N, 2, a, b)
              /\ AlgoMulE2(N, Neg(N, a), b) = PMul(N, 2, Neg(N, a), b)
+             /\ (AddSamePre(N, a, b) => AlgoAddSameE2(N, a, b) = PAdd(N, 2, a, b))
+             /\ (AddSamePre(N, Neg(N, a), b) => AlgoAddSameE2(N, Neg(N, a), b) = PAdd(N, 2, Neg(N, a), b))
 
 \* ---- Shift: k = regime value of a, j - (N-2) = regime value of b; field lengths only
 RegLen(kk) == IF kk < 0 THEN -kk + 1 ELSE kk + 2
@@ -56,6 +60,18 @@ ShiftB == LET kb == j - (N - 2)
               kz == k + kb + 2                             \* largest regime value after both carries
               rg(kk) == IF kk < 0 THEN -kk ELSE kk + 1
           IN \A kk \in (k + kb) .. kz : rg(kk) > N - 2 \/ tz >= rg(kk) + 1
+
+\* ---- Lat: wide formats, operands from a lattice of 4(N-1) magnitudes: a lone bit, a lone bit + lsb,
+\* a run of ones from the top, the same minus one (every regime, long carry chains, far-apart scales)
+LatPat(i) == LET q == i \div 4  r == i % 4 IN
+  IF r = 0 THEN Pow2(q) ELSE IF r = 1 THEN Add(Pow2(q), <<1>>)
+  ELSE IF r = 2 THEN Sub(Pow2(N - 1), Pow2(q)) ELSE Sub(Sub(Pow2(N - 1), Pow2(q)), <<1>>)
+LatB == LET a == LatPat(k)  b == LatPat(j)
+        IN /\ AlgoMulE2(N, a, b) = PMul(N, 2, a, b)
+           /\ AlgoMulE2(N, Neg(N, a), b) = PMul(N, 2, Neg(N, a), b)
+           /\ AlgoAddSameE2(N, a, b) = PAdd(N, 2, a, b)
+           /\ AlgoAddSameE2(N, Neg(N, a), Neg(N, b)) = PAdd(N, 2, Neg(N, a), Neg(N, b))
+LatOk == j = -1 \/ mode # "lat" \/ LatB
 
 TailOk  == j = -1 \/ mode # "tail"  \/ TailB
 PairsOk == j = -1 \/ mode # "pairs" \/ PairsB
